@@ -25,6 +25,50 @@ type seqAnswers struct {
 	content *zh.Content
 	wire    sx.V
 	docIDs  [][]byte
+	// one long, unsorted id list that every reader passes to DocNumbers, and its sequential answer
+	sharedIDs  []string
+	sharedWant *roaring.Bitmap
+	// a doc-value script (one visit state, first a narrow field list, then the full one) and what it
+	// reports, call by call, when run alone
+	dvScript []uint64
+	dvAlone  []string
+}
+
+// runDvScript: one private visit state; the first half of the calls ask for the first doc-value
+// field only, the second half for all of them.
+func runDvScript(seg segment.Segment, a *seqAnswers) ([]string, error) {
+	dvv, ok := seg.(segment.DocValueVisitable)
+	if !ok || len(a.content.DVFields) == 0 {
+		return nil, nil
+	}
+	var st segment.DocVisitState
+	var out []string
+	for i, d := range a.dvScript {
+		fields := a.content.DVFields
+		if i < len(a.dvScript)/2 {
+			fields = fields[:1]
+		}
+		got := map[string][]string{}
+		var err error
+		st, err = dvv.VisitDocValues(d, fields, func(field string, term []byte) {
+			got[field] = append(got[field], string(term))
+		}, st)
+		if err != nil {
+			return nil, err
+		}
+		var keys []string
+		for k := range got {
+			sort.Strings(got[k])
+			keys = append(keys, k)
+		}
+		sort.Strings(keys)
+		line := fmt.Sprintf("doc %d fields %q:", d, fields)
+		for _, k := range keys {
+			line += fmt.Sprintf(" %s=%q", k, got[k])
+		}
+		out = append(out, line)
+	}
+	return out, nil
 }
 
 func sequential(seg segment.Segment) (*seqAnswers, error) {
@@ -39,6 +83,23 @@ func sequential(seg segment.Segment) (*seqAnswers, error) {
 			return nil, err
 		}
 		a.docIDs = append(a.docIDs, append([]byte(nil), id...))
+	}
+	for k := 0; k < 90 || k < int(cont.NDocs); k++ {
+		if k < int(cont.NDocs) {
+			a.sharedIDs = append(a.sharedIDs, string(a.docIDs[int(cont.NDocs)-1-k]))
+		}
+		a.sharedIDs = append(a.sharedIDs, fmt.Sprintf("absent-%03d", 997*k%1000), fmt.Sprintf("~beyond-%02d", k%7))
+	}
+	bm, err := seg.DocNumbers(append([]string(nil), a.sharedIDs...))
+	if err != nil {
+		return nil, err
+	}
+	a.sharedWant = bm
+	for i := uint64(0); i < 8 && cont.NDocs > 0; i++ {
+		a.dvScript = append(a.dvScript, (i*5+3)%cont.NDocs)
+	}
+	if a.dvAlone, err = runDvScript(seg, a); err != nil {
+		return nil, err
 	}
 	return a, nil
 }
@@ -146,6 +207,14 @@ func readerCall(r *zh.Rng, seg segment.Segment, a *seqAnswers, rc *zh.Recycled) 
 			return
 		}
 		d := uint64(r.Intn(int(n)))
+		if r.Bool() {
+			// the batch's id list, handed to every reader as it is (one slice, more than 64 ids, unsorted)
+			bm, err := seg.DocNumbers(a.sharedIDs)
+			if err != nil || !bm.Equals(a.sharedWant) {
+				return kind, fmt.Sprintf("DocNumbers(the shared list of %d ids) = %v (err %v), alone it answers %v", len(a.sharedIDs), bm, err, a.sharedWant)
+			}
+			return kind, ""
+		}
 		bm, err := seg.DocNumbers([]string{string(a.docIDs[d]), "zzz-absent"})
 		if err != nil || !bm.Contains(uint32(d)) {
 			return kind, fmt.Sprintf("DocNumbers(id of %d) = %v (err %v)", d, bm, err)
@@ -155,6 +224,17 @@ func readerCall(r *zh.Rng, seg segment.Segment, a *seqAnswers, rc *zh.Recycled) 
 		dvv, ok := seg.(segment.DocValueVisitable)
 		if !ok || n == 0 || len(a.content.DVFields) == 0 {
 			return
+		}
+		if r.Chance(3) {
+			// the scripted history with one state whose field list widens half-way
+			got, err := runDvScript(seg, a)
+			if err != nil {
+				return kind, err.Error()
+			}
+			if fmt.Sprint(got) != fmt.Sprint(a.dvAlone) {
+				return kind, fmt.Sprintf("a history of doc-value visits with one private state (first the field list %q, then %q) reports\n  %q\nrun alone it reports\n  %q", a.content.DVFields[:1], a.content.DVFields, got, a.dvAlone)
+			}
+			return kind, ""
 		}
 		var st segment.DocVisitState
 		for k := 0; k < 3; k++ {
